@@ -53,6 +53,7 @@ type c13Run struct {
 	lostBy        map[string]string
 	rewrittenLost map[string]bool
 	regrantSince  map[string]bool // a grant event happened after the document left the view
+	roleDelSince  map[string]bool // the role was deleted after the document left the view
 	innerViol     map[string]string
 	innerVisible  map[string]string
 	open          *c13Open
@@ -104,7 +105,8 @@ func (r *c13Run) syncOpen(rep *vreport.Report) map[string]string {
 	}
 	uc := *e.coll
 	uc.user = u
-	deadline := time.After(20 * time.Second)
+	deadline := time.After(30 * time.Second)
+	round := 0
 	for {
 		select {
 		case entry, ok := <-r.open.feed:
@@ -121,7 +123,24 @@ func (r *c13Run) syncOpen(rep *vreport.Report) map[string]string {
 			}
 			if entry.ID == marker {
 				r.last = entry.Seq
-				r.compare("open", &uc, viol)
+				probe := map[string]string{}
+				r.compare("open", &uc, probe)
+				if len(probe) > 0 && round < 6 {
+					// "eventually": a change of the user's access reaches the feed through the user document, which is not
+					// ordered with the marker; give the feed further wake-ups before judging
+					round++
+					time.Sleep(100 * time.Millisecond)
+					r.markerN++
+					marker = r.n(fmt.Sprintf("mk%d", r.markerN))
+					if _, _, err := e.coll.Put(e.ctx, marker, Body{"channels": []string{"!"}}); err != nil {
+						viol["C13/harness/marker"] = err.Error()
+						return viol
+					}
+					continue
+				}
+				for k, v := range probe {
+					viol[k] = v
+				}
 				return viol
 			}
 			if strings.HasPrefix(strings.TrimSuffix(entry.ID, r.sfx), "mk") {
@@ -447,6 +466,10 @@ func (r *c13Run) compare(tag string, uc *DatabaseCollectionWithUser, viol map[st
 				viol["C13/client-keeps-document-deleted-or-moved-before-a-channel-was-granted-again"] = fmt.Sprintf("after pull %d the client still holds %s, which was %s and has had no removal, deletion or revocation notice since; a channel was granted (again) between that and the pull; user can see %v; history %v", r.pullN, id, lb, want, r.hist)
 				continue
 			}
+			if lb := r.lostBy[id]; strings.HasPrefix(lb, "d") && r.roleDelSince[id] {
+				viol["C13/client-keeps-document-after-role-deletion/document-deleted-or-moved-before-the-deletion"] = fmt.Sprintf("after pull %d the client still holds %s, which was %s while the user still had the role, and the role was deleted before the client pulled: neither the deletion / removal nor a revocation is reported; user can see %v; history %v", r.pullN, id, lb, want, r.hist)
+				continue
+			}
 			if r.lostBy[id] == "r:del*" {
 				viol["C13/client-keeps-document-after-role-deletion/deletion-raced-by-a-grant-to-the-role"] = fmt.Sprintf("after pull %d the client still holds %s: the role was deleted while it was being given a further channel and the client pulled in between; the deletion keeps the sequence it reserved before the grant, so for a client whose position is already past it the loss of the role's channels is never reported; user can see %v; history %v", r.pullN, id, want, r.hist)
 				continue
@@ -579,7 +602,12 @@ func (e *c13Env) run(t testing.TB, r *vreport.Report, hist []string) {
 		visBefore := run.visible()
 		err := run.world(sym)
 		if run.lostBy == nil {
-			run.lostBy, run.rewrittenLost, run.regrantSince = map[string]string{}, map[string]bool{}, map[string]bool{}
+			run.lostBy, run.rewrittenLost, run.regrantSince, run.roleDelSince = map[string]string{}, map[string]bool{}, map[string]bool{}, map[string]bool{}
+		}
+		if sym == "r:del" || sym == "r:del*" {
+			for id := range run.lostBy {
+				run.roleDelSince[id] = true
+			}
 		}
 		if sym == "u:A" || sym == "u+r" || sym == "r:B" || strings.HasPrefix(sym, "g:u") || strings.HasPrefix(sym, "g:r") {
 			for id := range run.lostBy {
@@ -596,6 +624,7 @@ func (e *c13Env) run(t testing.TB, r *vreport.Report, hist []string) {
 				run.lostBy[id] = sym
 				run.rewrittenLost[id] = false
 				run.regrantSince[id] = false
+				run.roleDelSince[id] = false
 			}
 		}
 		for id := range run.innerVisible {
